@@ -16,10 +16,13 @@ import (
 	xxhash "github.com/cespare/xxhash/v2"
 	"google.golang.org/grpc/balancer"
 	"google.golang.org/grpc/connectivity"
+	"google.golang.org/grpc/experimental/balancer/weight"
 	iringhash "google.golang.org/grpc/internal/ringhash"
 	"google.golang.org/grpc/internal/zzverif/vlib"
+	"google.golang.org/grpc/internal/zzverif/vlib/lbtest"
 	"google.golang.org/grpc/metadata"
 	"google.golang.org/grpc/resolver"
+	rhattr "google.golang.org/grpc/resolver/ringhash"
 )
 
 func c37Safe(tr *vlib.Trace, what string, f func()) {
@@ -290,4 +293,184 @@ func TestVerifC37Pick(t *testing.T) {
 		np += c37Picks(tr, r, c.ws, c.size, maxAssign)
 	}
 	fmt.Printf("VERIF_SUMMARY {\"picks\":%d,\"events\":%d}\n", np, tr.N)
+}
+
+// ---------------------------------------------------------------------------------------------
+// the ring the real ring_hash balancer ends up with after a history of resolver updates
+
+// one endpoint as the resolver reports it: address, optional hash-key attribute, weight attribute
+type c37EP struct {
+	addr, key string
+	w         uint32
+}
+
+func (e c37EP) hashKey() string {
+	if e.key != "" {
+		return e.key
+	}
+	return e.addr
+}
+
+func c37Endpoints(set []c37EP) []resolver.Endpoint {
+	var out []resolver.Endpoint
+	for _, e := range set {
+		ep := resolver.Endpoint{Addresses: []resolver.Address{{Addr: e.addr}}}
+		if e.key != "" {
+			ep = rhattr.SetHashKey(ep, e.key)
+		}
+		out = append(out, weight.Set(ep, weight.EndpointInfo{Weight: e.w}))
+	}
+	return out
+}
+
+// applies the updates to a fresh balancer (all sub-connections stay IDLE, so nothing happens asynchronously) and
+// returns the ring of the picker published by the last update
+func c37RingAfter(updates [][]c37EP, min, max uint64) *ring {
+	cc := lbtest.NewRecCC()
+	b := balancer.Get(Name).Build(cc, balancer.BuildOptions{})
+	defer b.Close()
+	var rg *ring
+	for _, u := range updates {
+		if err := b.UpdateClientConnState(balancer.ClientConnState{ResolverState: resolver.State{Endpoints: c37Endpoints(u)},
+			BalancerConfig: &iringhash.LBConfig{MinRingSize: min, MaxRingSize: max}}); err != nil {
+			panic(fmt.Sprintf("UpdateClientConnState: %v", err))
+		}
+		rg = nil
+		for _, ev := range cc.Take() {
+			if ev.Kind == "update_state" {
+				if p, ok := ev.Pick.(*picker); ok {
+					rg = p.ring
+				}
+			}
+		}
+		if rg == nil {
+			panic("no ring_hash picker published after a resolver update")
+		}
+	}
+	return rg
+}
+
+func c37Clone(s []c37EP) []c37EP { return append([]c37EP(nil), s...) }
+
+// histories of resolver updates that all end with the set final
+func c37Histories(r *rand.Rand, final []c37EP, nrand int) (names []string, hs [][][]c37EP) {
+	add := func(name string, h ...[]c37EP) {
+		names = append(names, name)
+		hs = append(hs, append(h, final))
+	}
+	add("direct")
+	mut := func(i int, both, w, k bool) []c37EP {
+		o := c37Clone(final)
+		if w || both {
+			o[i].w = o[i].w%7 + 2
+			if o[i].w == final[i].w {
+				o[i].w++
+			}
+		}
+		if k || both {
+			o[i].key = "old-key-" + o[i].addr
+		}
+		return o
+	}
+	for i := range final {
+		add(fmt.Sprintf("weight+key of %d changed", i), mut(i, true, false, false))
+		add(fmt.Sprintf("weight of %d changed", i), mut(i, false, true, false))
+		add(fmt.Sprintf("key of %d changed", i), mut(i, false, false, true))
+	}
+	extra := c37EP{addr: "10.1.1.1:99", w: 5}
+	add("endpoint removed", append(c37Clone(final), extra))
+	if len(final) > 1 {
+		add("endpoint added", c37Clone(final[1:]))
+		rev := c37Clone(final)
+		for i, j := 0, len(rev)-1; i < j; i, j = i+1, j-1 {
+			rev[i], rev[j] = rev[j], rev[i]
+		}
+		add("reordered", rev)
+		add("all changed, then extra removed", append(mut(0, true, false, false), extra), mut(len(final)-1, true, false, false))
+	}
+	for n := 0; n < nrand; n++ {
+		var h [][]c37EP
+		for s := 0; s < 1+r.Intn(4); s++ {
+			var o []c37EP
+			for i, e := range final {
+				switch r.Intn(6) {
+				case 0: // absent
+					continue
+				case 1:
+					e = mut(i, true, false, false)[i]
+				case 2:
+					e = mut(i, false, true, false)[i]
+				case 3:
+					e = mut(i, false, false, true)[i]
+				}
+				o = append(o, e)
+			}
+			if r.Intn(3) == 0 {
+				o = append(o, extra)
+			}
+			if len(o) == 0 {
+				o = append(o, extra)
+			}
+			r.Shuffle(len(o), func(i, j int) { o[i], o[j] = o[j], o[i] })
+			h = append(h, o)
+		}
+		names = append(names, fmt.Sprintf("random-%d", n))
+		hs = append(hs, append(h, final))
+	}
+	return names, hs
+}
+
+func TestVerifC37Balancer(t *testing.T) {
+	tr, err := vlib.NewTrace(os.Getenv("VERIF_OUT"))
+	if err != nil {
+		t.Fatal(err)
+	}
+	defer tr.Close()
+	seed := int64(vlib.EnvInt("VERIF_SEED", 1))
+	nrand := vlib.EnvInt("VERIF_N", 6)
+	r := rand.New(rand.NewSource(seed))
+	finals := [][]c37EP{
+		{{"10.0.0.1:1", "key-new", 3}, {"10.0.0.2:2", "", 1}, {"10.0.0.3:3", "", 1}},
+		{{"10.0.0.1:1", "", 1}, {"10.0.0.2:2", "", 1}},
+		{{"10.0.0.1:1", "zz", 2}, {"10.0.0.2:2", "aa", 1}, {"10.0.0.3:3", "mm", 1}, {"10.0.0.4:4", "", 4}},
+		{{"10.0.0.9:1", "only", 1}},
+	}
+	nh := 0
+	for fi, final := range finals {
+		size := uint64([]int{10, 8, 16, 3}[fi])
+		c37Safe(tr, "balancer", func() {
+			keys := make([]string, len(final))
+			for i, e := range final {
+				keys[i] = e.hashKey()
+			}
+			sorted := append([]string(nil), keys...)
+			sort.Strings(sorted)
+			canon := map[string]int{}
+			for i, k := range sorted {
+				canon[k] = i + 1
+			}
+			cws := make([]int, len(final))
+			for _, e := range final {
+				cws[canon[e.hashKey()]-1] = int(e.w)
+			}
+			tr.Emit(map[string]any{"ev": "ringcfg", "ws": cws, "min": size, "max": size + 1, "via": "balancer"})
+			names, hs := c37Histories(r, final, nrand)
+			for hi, h := range hs {
+				rg := c37RingAfter(h, size, size)
+				counts := make([]int, len(final))
+				items := [][]int{}
+				for _, it := range rg.items {
+					ci := canon[it.hashKey] // 0: a hash key that is not in the final endpoint set
+					if ci > 0 {
+						counts[ci-1]++
+					}
+					items = append(items, append(c37Limbs(it.hash), ci))
+				}
+				tr.Emit(map[string]any{"ev": "ring", "hist": names[hi], "perm": []int{hi}, "updates": len(h), "counts": counts, "items": items, "full": true})
+				nh++
+			}
+		})
+		tr.Reset()
+	}
+	fmt.Printf("VERIF_SUMMARY {\"histories\":%d,\"events\":%d}\n", nh, tr.N)
 }
